@@ -1,13 +1,223 @@
 package workers
 
 import (
+	"fmt"
 	"math/rand"
+	"sync"
 	"testing"
+	"time"
 
+	http2 "github.com/dgrr/http2"
+	"github.com/valyala/fasthttp"
+
+	"h2v/rt"
 	"h2v/vf"
+	"h2v/wire"
 )
 
-// c11RoundTrip: placeholder until the TLS environment is wired in (falls back to a connection-level scenario).
+type rtCall struct {
+	tag   string
+	done  bool
+	retry bool
+	err   error
+	res   *fasthttp.Response
+}
+
+// c11RoundTrip: HostClient + ConfigureClient over TLS against scripted servers; at-most-once delivery and honest "retry".
 func c11RoundTrip(r *vf.Run, t *testing.T, id string, rng *rand.Rand) {
-	c11Conn(r, t, id, rng)
+	n := 1 + rng.Intn(6)
+	fault := []string{"goaway", "goaway", "refused", "rst", "conn-loss", "silence", "none"}[rng.Intn(7)]
+	replay := map[string]any{"level": "roundtrip", "callers": n, "fault": fault}
+	failed := false
+	fail := func(rule, detail string) {
+		if !failed {
+			r.Fail("C11."+rule, id, detail, nil, replay)
+		}
+		failed = true
+	}
+	res := rt.RunBubble(t, id, 90*time.Second, func() {
+		env, err := rt.NewRTEnv(id, http2.ClientOpts{MaxResponseTime: 30 * time.Second}, []wire.Setting{{ID: 3, Val: 100}, {ID: 4, Val: 1 << 20}})
+		if err != nil {
+			fail("configure-client", err.Error())
+			return
+		}
+		defer env.Close()
+		var mu sync.Mutex
+		calls := make([]*rtCall, n)
+		methods := []string{"GET", "POST", "PUT", "DELETE"}
+		for i := 0; i < n; i++ {
+			c := &rtCall{tag: fmt.Sprintf("%s.%d", id, i), res: &fasthttp.Response{}}
+			calls[i] = c
+			m := methods[rng.Intn(len(methods))]
+			body := rng.Intn(2) == 0
+			go func() {
+				req := &fasthttp.Request{}
+				req.SetRequestURI("https://h2v.example/" + c.tag)
+				req.Header.SetMethod(m)
+				req.Header.Add("x-vtag", c.tag)
+				if body && m != "GET" {
+					req.SetBody([]byte("payload of " + c.tag))
+				}
+				retry, err := env.Client.RoundTrip(env.HC, req, c.res)
+				mu.Lock()
+				c.done, c.retry, c.err = true, retry, err
+				mu.Unlock()
+			}()
+		}
+		rt.Wait()
+		conns := env.Conns()
+		if len(conns) == 0 {
+			fail("no-connection", "no connection reached the scripted server")
+			return
+		}
+		c0 := conns[0]
+		disclaimed := map[string]bool{} // tag arrivals on connection 0 that the server disclaimed
+		answered := map[string]bool{}   // "conn/stream" already answered or reset
+		answer := func(c *rt.RTConn, s *rt.SeenRequest) {
+			key := fmt.Sprintf("%d/%d", c.Index, s.Stream)
+			if answered[key] || s.EndStream == 0 {
+				return
+			}
+			answered[key] = true
+			tag, _ := s.Get("x-vtag")
+			blk := c.P.EncodeBlock([]F{{Name: ":status", Value: "200"}, {Name: "x-rtag", Value: tag}, {Name: "x-conn", Value: fmt.Sprint(c.Index)}}, nil)
+			out := rt.Concat(rt.HeaderFrames(s.Stream, blk, nil, -1, nil, false))
+			out = append(out, rt.Concat(rt.DataFrames(s.Stream, []byte("body for "+tag), nil, nil, true))...)
+			c.P.Write(out)
+		}
+		seen0 := rt.SeenOn(c0.P)
+		perm := rng.Perm(len(seen0))
+		subset := perm[:rng.Intn(len(perm)+1)]
+		inSubset := map[int]bool{}
+		for _, i := range subset {
+			inSubset[i] = true
+		}
+		switch fault {
+		case "goaway":
+			var last uint32
+			if len(seen0) > 0 {
+				last = []uint32{0, seen0[rng.Intn(len(seen0))].Stream, seen0[len(seen0)-1].Stream, 1<<31 - 1}[rng.Intn(4)]
+			}
+			replay["last_stream_id"] = last
+			c0.P.Write(append(rt.GoAway(last, uint32([]int{0, 1, 11}[rng.Intn(3)]), "bye"), rt.Ping(false, "afterGA!")...))
+			for i, s := range seen0 {
+				tag, _ := s.Get("x-vtag")
+				if s.Stream > last {
+					disclaimed[tag] = true
+					answered[fmt.Sprintf("0/%d", s.Stream)] = true
+				} else if inSubset[i] || rng.Intn(2) == 0 {
+					answer(c0, s)
+				}
+			}
+		case "refused":
+			for i, s := range seen0 {
+				tag, _ := s.Get("x-vtag")
+				if inSubset[i] {
+					c0.P.Write(rt.RstStream(s.Stream, 7))
+					disclaimed[tag] = true
+					answered[fmt.Sprintf("0/%d", s.Stream)] = true
+				} else {
+					answer(c0, s)
+				}
+			}
+		case "rst":
+			for i, s := range seen0 {
+				if inSubset[i] {
+					c0.P.Write(rt.RstStream(s.Stream, uint32([]int{2, 8, 11}[rng.Intn(3)])))
+					answered[fmt.Sprintf("0/%d", s.Stream)] = true
+				} else {
+					answer(c0, s)
+				}
+			}
+		case "conn-loss":
+			for i, s := range seen0 {
+				if inSubset[i] {
+					answer(c0, s)
+				}
+			}
+			rt.Wait()
+			if rng.Intn(2) == 0 {
+				c0.Raw.Close()
+			} else {
+				c0.Raw.Reset()
+			}
+		case "silence":
+			for i, s := range seen0 {
+				if inSubset[i] {
+					answer(c0, s)
+				}
+			}
+		case "none":
+			for _, s := range seen0 {
+				answer(c0, s)
+			}
+		}
+		// every other connection the client dials behaves
+		for round := 0; round < 6; round++ {
+			rt.Wait()
+			for _, c := range env.Conns() {
+				if c.Index == 0 {
+					continue
+				}
+				for _, s := range rt.SeenOn(c.P) {
+					answer(c, s)
+				}
+			}
+		}
+		time.Sleep(35 * time.Second)
+		rt.Wait()
+		for _, c := range env.Conns() {
+			if c.Index != 0 {
+				for _, s := range rt.SeenOn(c.P) {
+					answer(c, s)
+				}
+			}
+		}
+		rt.Wait()
+		// arrivals per tag, in connection order
+		arrivals := map[string][]string{}
+		for _, c := range env.Conns() {
+			for _, s := range rt.SeenOn(c.P) {
+				tag, _ := s.Get("x-vtag")
+				arrivals[tag] = append(arrivals[tag], fmt.Sprintf("conn %d stream %d", c.Index, s.Stream))
+			}
+		}
+		mu.Lock()
+		defer mu.Unlock()
+		for _, c := range calls {
+			arr := arrivals[c.tag]
+			if len(arr) > 1 && !disclaimed[c.tag] {
+				fail("request-sent-twice", fmt.Sprintf("fault %s: the HEADERS of request %s reached a server %d times (%v) although the first arrival was never disclaimed by GOAWAY or REFUSED_STREAM", fault, c.tag, len(arr), arr))
+			}
+			if len(arr) > 2 {
+				fail("request-sent-twice", fmt.Sprintf("fault %s: request %s reached servers %d times (%v); only the first arrival was disclaimed", fault, c.tag, len(arr), arr))
+			}
+			if !c.done {
+				fail("caller-not-resolved", fmt.Sprintf("fault %s: RoundTrip for %s has not returned 35 virtual seconds later (MaxResponseTime is 30 s)", fault, c.tag))
+				continue
+			}
+			if c.retry && len(arr) > 0 && !disclaimed[c.tag] {
+				fail("retry-claimed-for-processed-request", fmt.Sprintf("fault %s: RoundTrip for %s returned retry=true (err %v) although its HEADERS reached the server (%v) and were not disclaimed", fault, c.tag, c.err, arr))
+			}
+			if c.err == nil {
+				if got := string(c.res.Header.Peek("x-rtag")); got != c.tag || string(c.res.Body()) != "body for "+c.tag {
+					fail("wrong-response", fmt.Sprintf("RoundTrip for %s succeeded with the response tagged %q, body %q", c.tag, got, c.res.Body()))
+				}
+			}
+		}
+		r.Inc("roundtrip_calls", int64(n))
+		r.Inc("connections_dialled", int64(len(env.Conns())))
+	})
+	switch {
+	case res.TimedOut && len(res.MutexStuck) > 0:
+		fail("deadlock", "goroutines of the client were waiting for a mutex when the watchdog fired")
+	case res.TimedOut:
+		r.Inconclusive("real-time watchdog expired inside a bubble")
+	case res.Panic != "":
+		fail("panic", res.Panic+"\n"+res.PanicStack)
+	}
+	r.Eval(vf.Hash("rt", n, fault), true)
+	if r.WantSample() {
+		r.Sample(replay)
+	}
 }
